@@ -300,6 +300,12 @@ type Spec[S any] struct {
 	Exec func(S) *Violation
 	// Cases for (quick, thorough)
 	Quick, Thorough int
+	// ScheduleDependent: the oracle observes free-running goroutines, so a violation need not repeat
+	// when the same script runs again; it is reported at once. For all other checks a violation must
+	// reproduce from its own script (1 of 2 immediate re-executions), otherwise it is counted as
+	// "_unreproduced" in the evidence and not reported: a failure that its own replay file cannot
+	// re-fail is no usable report.
+	ScheduleDependent bool
 }
 
 // replayTargets returns replay files addressed to this check: $VERIF_REPLAY (file) and the
@@ -371,6 +377,20 @@ func Run[S any](t *testing.T, sp Spec[S]) {
 			if c.Known(v.Sig) {
 				return
 			}
+			if !sp.ScheduleDependent {
+				again := false
+				for i := 0; i < 2 && !again; i++ {
+					if v2 := sp.Exec(s); v2 != nil && !c.Known(v2.Sig) {
+						again = true
+						v = v2
+					}
+				}
+				if !again {
+					c.Class("_unreproduced:"+v.Sig, 1)
+					c.noteUnreproduced(s, v)
+					return
+				}
+			}
 			out := c.WriteFailure(s, v)
 			rt.Fatalf("VERIF-FAIL check=%s replay=%s: %v", c.Check, out, v)
 		}
@@ -394,4 +414,14 @@ func (c *Collector) writeCurrent(script any) {
 	os.MkdirAll(dir, 0o755)
 	out, _ := json.Marshal(r)
 	os.WriteFile(filepath.Join(dir, fmt.Sprintf("%s.%d.json", c.Check, os.Getpid())), out, 0o644)
+}
+
+// noteUnreproduced keeps the first few violations that did not repeat (they appear in the evidence).
+func (c *Collector) noteUnreproduced(script any, v *Violation) {
+	c.mu.Lock()
+	defer c.mu.Unlock()
+	l, _ := c.extra["unreproduced_violations"].([]any)
+	if len(l) < 5 {
+		c.extra["unreproduced_violations"] = append(l, map[string]any{"sig": v.Sig, "msg": v.Msg, "script": script})
+	}
 }
